@@ -308,10 +308,12 @@ theorem tok_stepCall {s s' : State} (ti : TokInv s) {t op i kind key exp val}
                   exact tok_add_plain ti _ (by unfold Acq; simp) rfl rfl rfl
                 · cases h
               · split at h
-                · rename_i tok _ _ _ hg
-                  cases h
-                  exact tok_add_acq ti _ tok rfl (by simpa using hg.2.1) rfl rfl rfl
                 · cases h
+                · split at h
+                  · rename_i tok _ _ _ _ hg
+                    cases h
+                    exact tok_add_acq ti _ tok rfl (by simpa using hg.2.1) rfl rfl rfl
+                  · cases h
           · cases h
         · cases h; exact tok_add_plain ti _ (by unfold Acq; simp) rfl rfl rfl
         · split at h
